@@ -216,6 +216,24 @@ def _installer(model):
     return cname, fn, p
 
 
+
+def _local_set_always_lands(ctx, mod):
+    ms = class_methods(mod.cls("Env"))
+    fn0 = ms.get("_set_item")
+    if fn0 is None:
+        raise AnchorMissing(f"{EN}:Env._set_item")
+    fn = flat(ctx, fn0, 1, skip=("set_locally", "get_validator", "get_converter", "get_detyper"))
+    cfg = CFG(fn)
+    tl = next((a.arg for a in fn0.args.args + fn0.args.kwonlyargs if "local" in a.arg), None)
+    if tl is None:
+        raise AnalysisError(f"{EN}:Env._set_item: no thread-local switch parameter")
+    lands = [n for n in cfg.nodes if n.kind == "stmt" and any((call_name(c) or "").endswith("set_locally") for c in calls_in(n.ast))]
+    if not lands:
+        raise AnalysisError(f"{EN}:Env._set_item: no thread-local store")
+    ok, path = cfg.must_pass(cfg.entry, lambda m: m in lands, exits=("exit",), skip_edge=cfg.assume_edges([(tl, True)]))
+    ctx.ob("R7", f"{EN}:Env._set_item", f"with `{tl}` set every normal path stores into the private layer (`set_locally`)", ok, key="_set_item|local-set-skipped", where=loc(fn0), path=cfg.fmt_path(path) if path else None)
+
+
 def _through_predicates(facts, meths):
     """facts with calls of argument-less predicate methods of the class (`self._sees_private_values()`, one `return <expr>`)
     replaced by what the returned expression implies (`bool(A or B)` false -> A false, B false)"""
@@ -253,6 +271,7 @@ def check(ctx):
     ctx.rule("R1", "Env.swap captures each key before setting it, writes only thread-locally, and restores every captured key and the overlay in a finally that every exit passes", floor=8)
     ctx.rule("R2", "every read path compares a value taken from an overlay or the store with DELETE_VAR before returning/yielding/exporting it, and resolves a key by the top-most layer that contains it", floor=8)
     ctx.rule("R3", "worker threads read the spawner's swapped values before start() and install them before any other environment access in run()", floor=4)
+    ctx.rule("R7", "a scoped override is private from its first instant: asked for a thread-local set, _set_item reaches the thread-local store on every normal path - no shortcut (same value, same object, unchanged) returns before it; writes and deletes inside the scope are routed by 'is the key in the private layer', so a swap that left no private entry sends them to the shared mapping", floor=1)
     ctx.rule("R6", "what a worker thread inherits is the spawning thread's whole private view: the hand-over accessor returns a complete copy of the thread-local overrides - masks (DELETE_VAR) included, nothing filtered out or rewritten", floor=2)
     ctx.rule("R5", "thread-local state crosses a thread boundary only as a copy: no public method of Env / its dict hands out a thread-local container itself, and none installs a caller's object as thread-local state", floor=2)
     ctx.rule("R4", "thread-local environment data does not flow into state shared between threads", floor=1)
@@ -484,6 +503,7 @@ def check(ctx):
     is_tl = bool(roots) and all(a_ in model.views[c] and any(isinstance(r, ast.Return) and r.value is not None and any(f"self.{t}.__dict__" in unparse(r.value) for t in model.tl[c]) for r in walk_local(model.ms[c][a_])) for c, a_ in roots)
     ctx.ob("R3", f"{EN}:InternalEnvironDict", "the override layer is a threading.local dict; the view handed to a worker is a copy", is_tl and copied, key="ied|local-shape")
     _thread_local_boundary(ctx, mod, model)
+    _local_set_always_lands(ctx, mod)
     # installing: the function that does the work empties and refills the thread's own container - the same one
     icls, ifn, iparam = _installer(model)
     idefs = df.all_defs(ifn)
